@@ -603,7 +603,7 @@ def main(argv):
             n_run = 0
             n_fail = 0
             for c in _w2.load_candidates():
-                if c["kind"] not in ("check", "cli", "lsp_vs_check", "lsp_protocol", "encodings", "graphs"):
+                if c["kind"] not in ("check", "cli", "lsp_vs_check", "lsp_protocol", "encodings", "graphs", "echo", "tokens", "lsp"):
                     continue
                 if c.get("property") and pid not in c["property"]:
                     continue
